@@ -134,7 +134,7 @@ func render(n gnode, mode int, ind string) string {
 		return withBinds(x.list.binds, s, ind)
 	case *nLoop:
 		s := fmt.Sprintf("match %s with\n%s| None => None\n%s| Some (go_ret r) => %s\n%s| Some (go_exit %s) => %s\n%send",
-			x.lp.callText(x.init), ind, ind, retText(mode, "r"), ind, x.pat, render(x.after, mode, ind+"    "), ind)
+			x.lp.callText(x.init, x.free), ind, ind, retText(mode, "r"), ind, x.pat, render(x.after, mode, ind+"    "), ind)
 		return withBinds(x.binds, s, ind)
 	case *nLoopNext:
 		return x.lp.nextText(x.state)
@@ -267,6 +267,17 @@ func (tr *gtTr) stmt(s ast.Stmt, env *venv, next cont) gnode {
 	case *ast.BlockStmt:
 		return tr.scoped(env, next, func(e *venv, nx cont) gnode { return tr.block(x.List, e, nx) })
 	case *ast.ReturnStmt:
+		if len(x.Results) == 0 && len(tr.named) > 0 {
+			// a bare return with named results: their current values
+			var rs []ast.Expr
+			for _, n := range tr.named {
+				if v := env.lookup(n); v == nil || v.typ.kind == kStruct {
+					gtFail("bare return: the named result %s is shadowed here", n)
+				}
+				rs = append(rs, ast.NewIdent(n))
+			}
+			return tr.stmt(&ast.ReturnStmt{Results: rs}, env, next)
+		}
 		if len(x.Results) != len(tr.fn.results) {
 			gtFail("return with %d values for %d results (named results are outside the subset)", len(x.Results), len(tr.fn.results))
 		}
@@ -1204,16 +1215,24 @@ func (st *gtState) translateFn(g *gen, dir, key string, fn *gtFn, cfg *gtCfg) {
 		ptrNext = false
 	}
 	var rs []string
+	type namedResult struct {
+		name string
+		typ  *gtype
+	}
+	var namedResults []namedResult
+	namedUsed := false
 	if fd.Type.Results != nil && cfg.valueOf == "" && cfg.initOf == "" {
 		for _, fl := range fd.Type.Results.List {
-			for _, n := range fl.Names {
-				if mentions(fd.Body, n.Name) {
-					gtFail("named result %s is used in the body (outside the subset)", n.Name)
-				}
-			}
 			t := g.resolveType(p, f, fl.Type, 0)
 			if !t.supported() {
 				gtFail("result type %s is outside the subset", t.name)
+			}
+			for _, n := range fl.Names {
+				// named results are local variables that start at their zero values (declared only if the body uses one)
+				namedResults = append(namedResults, namedResult{n.Name, t})
+				if n.Name != "_" && mentions(fd.Body, n.Name) {
+					namedUsed = true
+				}
 			}
 			for i := 0; i < len(fl.Names) || i == 0; i++ {
 				fn.results = append(fn.results, t)
@@ -1375,13 +1394,30 @@ func (st *gtState) translateFn(g *gen, dir, key string, fn *gtFn, cfg *gtCfg) {
 			gtFail("fragment: the end is never reached")
 		}
 	} else {
-		node = tr.block(body, env, func(e *venv) gnode {
-			if len(fn.results) == 0 && len(fn.muts) > 0 {
-				return tr.stmt(&ast.ReturnStmt{}, e, nil)
+		if !namedUsed {
+			namedResults = nil
+		}
+		for _, nr := range namedResults {
+			if nr.name == "_" {
+				gtFail("a blank named result next to named results that are used")
 			}
-			gtFail("control can reach the end of the function without a return")
-			return nil
-		})
+		}
+		var declNamed func(i int, e *venv) gnode
+		declNamed = func(i int, e *venv) gnode {
+			if i == len(namedResults) {
+				return tr.block(body, e, func(e *venv) gnode {
+					if len(fn.results) == 0 && len(fn.muts) > 0 {
+						return tr.stmt(&ast.ReturnStmt{}, e, nil)
+					}
+					gtFail("control can reach the end of the function without a return")
+					return nil
+				})
+			}
+			nr := namedResults[i]
+			tr.named = append(tr.named, nr.name)
+			return tr.bindNew(e, nr.name, ex{code: zeroOf(nr.typ), typ: nr.typ}, true, func(e2 *venv) gnode { return declNamed(i+1, e2) })
+		}
+		node = declNamed(0, env)
 	}
 	fn.partial = nodePartial(node)
 
